@@ -15,7 +15,9 @@ import time
 
 VERIF = os.path.dirname(os.path.dirname(os.path.abspath(__file__)))
 SPEC = os.path.join(VERIF, "spec")
-HARNESS = os.path.join(VERIF, "harness")
+# VERIF_DEV_HARNESS (development only, never set by a registered command): a copy of harness/ whose path dependency points
+# at a scratch worktree of /repo carrying a seeded change, so that seeds can be tried without touching /repo
+HARNESS = os.environ.get("VERIF_DEV_HARNESS") or os.path.join(VERIF, "harness")
 WORK = os.path.join(VERIF, "work")
 EVID = os.path.join(VERIF, "evidence")
 REPLAY_DIR = os.path.join(EVID, "replay")
